@@ -101,4 +101,42 @@ theorem resolveAll_spec (c : Cache) : ∀ (keys : List TP) (off : Nat) (r : List
             have : j + (off + 1) = j + 1 + off := by omega
             rw [this] at hm; exact hm
 
+theorem nodup_flatMap_of {α β} (f : α → List β) : ∀ (l : List α), (∀ a ∈ l, (f a).Nodup) →
+    l.Pairwise (fun a b => ∀ x, x ∈ f a → x ∉ f b) → (l.flatMap f).Nodup
+  | [], _, _ => by simp
+  | a :: l, h1, h2 => by
+    rw [List.flatMap_cons, List.nodup_append]
+    obtain ⟨ha, hl⟩ := List.pairwise_cons.mp h2
+    refine ⟨h1 a (by simp), nodup_flatMap_of f l (fun b hb => h1 b (by simp [hb])) hl, ?_⟩
+    intro x hx y hy hxy
+    obtain ⟨b, hb, hyb⟩ := List.mem_flatMap.mp hy
+    exact ha b hb x hx (hxy ▸ hyb)
+
+/-- the requests built from a routing of the payload indices `0..n-1` partition those indices -/
+theorem groupByNode_partition (routed : List (Int × Nat)) (n : Nat) (h : routed.map (·.2) = List.range n) :
+    ((groupByNode routed).flatMap (·.2)).Nodup ∧ ∀ i, i < n → i ∈ (groupByNode routed).flatMap (·.2) := by
+  have hnd : (routed.map (·.2)).Nodup := by rw [h]; exact List.nodup_range
+  constructor
+  · apply nodup_flatMap_of
+    · intro g hg
+      obtain ⟨hps, _⟩ := groupByNode_group routed g.1 g.2 hg
+      rw [hps]
+      exact hnd.sublist (List.Sublist.map _ List.filter_sublist)
+    · simp only [groupByNode, List.pairwise_map]
+      have hd := dedup_nodup (routed.map (·.1))
+      rw [List.nodup_iff_pairwise_ne] at hd
+      refine hd.imp ?_
+      intro a b hab x hx hx'
+      simp only [List.mem_map, List.mem_filter, beq_iff_eq] at hx hx'
+      obtain ⟨p, ⟨hp, hpa⟩, rfl⟩ := hx
+      obtain ⟨p', ⟨hp', hpb⟩, hpp⟩ := hx'
+      have := eq_of_nodup_map (·.2) hnd hp' hp hpp
+      rw [this] at hpb
+      exact hab (hpa ▸ hpb ▸ rfl)
+  · intro i hi
+    have : i ∈ routed.map (·.2) := by rw [h]; exact List.mem_range.mpr hi
+    obtain ⟨x, hx, rfl⟩ := List.mem_map.mp this
+    obtain ⟨ps, hps, hin⟩ := groupByNode_covers routed x hx
+    exact List.mem_flatMap.mpr ⟨_, hps, hin⟩
+
 end Afkak.ClientCache
